@@ -232,7 +232,7 @@ theorem content_nil {r : Rec} {d : Dump} (hnt : hasTombstone r.files = false)
   · rfl
   · next hd =>
     exfalso
-    have := hk _ (by simp [hd])
+    have := hk (if hasTombstone r.files then Sig.restoreLostTombstone else Sig.restoreDiffers) (by simp [hd])
     simp [hnt, Sig.known] at this
 
 /-- one clean step: the checker reports nothing, and its records stay clean -/
@@ -271,7 +271,7 @@ theorem judge_step_clean (st : State) (recs : List Rec) (hinv : st.src.Inv) (hl 
           exfalso
           have : (judge recs (.restore [id]) (.target f d)).1 = [.badObservation] := by simp [judge, h2]
           rw [this] at hknown
-          have := hknown _ (by simp)
+          have := hknown Sig.badObservation (by simp)
           simp [Sig.known] at this
         | some r =>
           obtain ⟨hnt, since, hmade⟩ := hrc r (findRec_mem h2)
@@ -296,7 +296,7 @@ theorem judge_step_clean (st : State) (recs : List Rec) (hinv : st.src.Inv) (hl 
           exfalso
           have : (judge recs (.importA [id]) (.target f d)).1 = [.badObservation] := by simp [judge, h2]
           rw [this] at hknown
-          have := hknown _ (by simp)
+          have := hknown Sig.badObservation (by simp)
           simp [Sig.known] at this
         | some r =>
           obtain ⟨hnt, since, hmade⟩ := hrc r (findRec_mem h2)
